@@ -1391,14 +1391,16 @@ namespace link_layer {
         static constexpr delta_time minimum_connection_interval( 7500 );
         static constexpr delta_time maximum_connection_interval( 4 * 1000 * 1000 );
 
+        // the latency has to be checked before it is multiplied with the interval: with a valid interval and a valid
+        // latency the product fits into the 32 bit microseconds of a delta_time, otherwise it overflows
         return connection_interval_ >= minimum_connection_interval
             && connection_interval_ <= maximum_connection_interval
+            && peripheral_latency_ <= maximum_link_layer_peripheral_latency
             && transmit_window_size_ <= maximum_transmit_window_offset
             && transmit_window_size_ <= connection_interval_
             && connection_timeout_ >= minimum_connection_timeout
             && connection_timeout_ <= maximum_connection_timeout
-            && connection_timeout_ >= ( peripheral_latency_ + 1 ) * 2 * connection_interval_
-            && peripheral_latency_ <= maximum_link_layer_peripheral_latency;
+            && connection_timeout_ >= ( peripheral_latency_ + 1 ) * 2 * connection_interval_;
     }
 
     template < class Server, template < std::size_t, std::size_t, class > class ScheduledRadio, typename ... Options >
